@@ -372,8 +372,24 @@ def recv_start(toks, dot):
                         break
                 k -= 1
             j = k - 1
-            # a call: the callee name precedes the paren
-            if toks[j].kind == "ident" or toks[j].text == ">":
+            # a call: the callee name precedes the paren (possibly with a turbofish `name::<..>` in between)
+            if toks[j].text in (">", ">>"):
+                d_ = 0
+                while j >= 0:
+                    if toks[j].text == ">":
+                        d_ += 1
+                    elif toks[j].text == ">>":
+                        d_ += 2
+                    elif toks[j].text == "<":
+                        d_ -= 1
+                        if d_ == 0:
+                            break
+                    j -= 1
+                if toks[j - 1].text == "::":
+                    j -= 2
+                else:
+                    return k
+            if toks[j].kind == "ident":
                 continue
             return j + 1
         if t.kind in ("ident", "num") or t.text == "?":
@@ -733,6 +749,23 @@ def apply_rewrites(text, rewrites):
                 for_ -= 1
             text = (text[:toks_[for_].start] + f"let __iv_{rw[1]} = map_into_vec({rw[1]}); let ghost __ivs_{rw[1]} = __iv_{rw[1]}@; "
                     + text[toks_[for_].start:t_.start] + f"__iv_{rw[1]}" + text[t_.end:])
+        elif rw[0] == "PIPE":   # R19: tap's `RECV.pipe(|mut v| { BODY })` == `{ let mut v = RECV; BODY }` (its definition: pipe(self, f) = f(self))
+            toks_ = tokenize(text)
+            hit_ = [k_ for k_, t_ in enumerate(toks_) if t_.text == "pipe" and toks_[k_ - 1].text == "." and toks_[k_ + 1].text == "("]
+            if len(hit_) != 1:
+                raise Undecided(f"R19: `.pipe(` found {len(hit_)} times")
+            k_ = hit_[0]
+            cp_ = match_close(toks_, k_ + 1)
+            a_ = k_ + 2
+            if not (toks_[a_].text == "|" and toks_[a_ + 1].text == "mut" and toks_[a_ + 2].kind == "ident" and toks_[a_ + 3].text == "|" and toks_[a_ + 4].text == "{"):
+                raise Undecided("R19: pipe argument is not `|mut v| { .. }`")
+            bc_ = match_close(toks_, a_ + 4)
+            if bc_ + 1 != cp_:
+                raise Undecided("R19: pipe closure is not the only argument")
+            st_ = recv_start(toks_, k_ - 1)
+            recv_ = text[toks_[st_].start:toks_[k_ - 1].start]
+            inner_ = text[toks_[a_ + 4].end:toks_[bc_].start]
+            text = text[:toks_[st_].start] + "{ let mut " + toks_[a_ + 2].text + " = " + recv_.strip() + ";" + inner_ + "}" + text[toks_[cp_].end:]
         elif rw[0] == "ROOT":
             text = rewrite_ROOT(text, rw[1], rw[2], rw[3], rw[4] if len(rw) > 4 else True)
         elif rw[0] == "ANF":
